@@ -20,6 +20,7 @@ import subprocess
 import sys
 
 from . import common, tlc, c06, c12
+from .exc import exc_name
 
 INT_CLASS = {"neg": "-1", "zero": "0", "one": "1", "two": "2", "big": "25", "huge": "100000", "float": "2.5",
              "word": "abc", "empty": "", "plus": "+3", "exp": "1e2", "hex": "0x3"}
@@ -239,7 +240,7 @@ def main(argv=None):
         except ValueError:
             got = "ValueError"
         except Exception as e:
-            got = type(e).__name__
+            got = exc_name(e)
         ck.replayed({"id": "format-%03d" % j, "case": c, "got": got}, got == c["expect"],
                     "output_format_%s_expected_%s" % (got, c["expect"]))
     vectors = ck.export("CliArgs", "CliArgs.cfg")
